@@ -25,6 +25,7 @@ WITNESS = {
     'prefix_kv':    ('MC_TxExec_prefix_kv.cfg',    {'accts': [1], 'keys': ['k1'], 'maxn': 1}),
     'prefix_empty': ('MC_TxExec_prefix_empty.cfg', {'accts': [1], 'keys': ['k1'], 'maxn': 1}),
     'prefix_admin': ('MC_TxExec_prefix_admin.cfg', {'accts': [1], 'keys': ['k1'], 'maxn': 1}),
+    'prefix_create': ('MC_TxExec_prefix_create.cfg', {'accts': [1], 'keys': ['k1'], 'maxn': 1}),
 }
 
 
@@ -255,6 +256,30 @@ def run(ctx, replay=None):
             ex['steps'].append({'a': 'ExecTx', 'args': [t, 'valid'], 'post': None})
         ex['steps'].append({'a': 'Commit', 'args': [], 'post': None})
     traces.append(ex)
+
+    # 5c. execution that fails inside the EVM must still consume the nonce: every failing-init-code variant, a reverting
+    #     call and an out-of-budget call, each followed by the SAME signed bytes in the same block and in later blocks
+    for v in range(5):
+        def cf(n, r):
+            return {'a': 'ExecTx', 'args': [tx('createfail', 1, n), r, v], 'post': None}
+        t = {'id': 'failed-create-replay-%d' % v, 'cfg': {'accts': [1, 2], 'keys': ['k1'], 'maxn': 2, 'mode': 'model', 'routines': 1 + v},
+             'init': None, 'steps': []}
+        for blk in ([cf(0, 'valid'), cf(0, 'invalid')],
+                    [cf(0, 'invalid'), cf(1, 'valid'), cf(1, 'invalid')],
+                    [cf(1, 'invalid'), cf(0, 'invalid'), {'a': 'ExecTx', 'args': [tx('xfer', 1, 2), 'valid'], 'post': None}]):
+            t['steps'].append({'a': 'Begin', 'args': [], 'post': None})
+            t['steps'] += blk
+            t['steps'].append({'a': 'Commit', 'args': [], 'post': None})
+        traces.append(t)
+    t = {'id': 'failed-call-replay', 'cfg': {'accts': [1, 2], 'keys': ['k1'], 'maxn': 2, 'mode': 'model'}, 'init': None, 'steps': []}
+    for blk in ([(tx('create', 1, 0), 'valid'), (tx('revert', 2, 0), 'valid'), (tx('revert', 2, 0), 'invalid')],
+                [(tx('revert', 2, 0), 'invalid'), (tx('oog', 2, 1), 'valid'), (tx('oog', 2, 1), 'invalid'), (tx('admshort', 1, 1), 'valid')],
+                [(tx('oog', 2, 1), 'invalid'), (tx('admshort', 1, 1), 'invalid'), (tx('xfer', 2, 2), 'valid')]):
+        t['steps'].append({'a': 'Begin', 'args': [], 'post': None})
+        for a, r in blk:
+            t['steps'].append({'a': 'ExecTx', 'args': [a, r], 'post': None})
+        t['steps'].append({'a': 'Commit', 'args': [], 'post': None})
+    traces.append(t)
 
     # 6. byte-level mutants (bounded): model-independent oracles only
     nm = 6 if quick else 60
